@@ -14,12 +14,12 @@ CLAIMS = {
         note="PARTIAL: the seglog layer plus the watermark invariant of the writer thread (units/U12w: WriterSet::sync fsyncs, publishes pending index entries, then the watermark; WriterSet::rollover releases every appender of the sealed segment and starts the new segment with watermark <= fsynced - this harness found the stale-watermark defect fixed in cc7f18a). NOT decided: WriterSet::handle_write, the async hand-off in WriterThreadPool::append_events (released when watermark >= write offset: read, not proved), reads through the async reader pool, real kernel fsync semantics (sync_data is a model no-op counted for ordering only), reopen. Multi-step history harnesses ran CBMC out of memory and are not registered."),
     "C17": dict(
         category="other", design_ref="§5 U01/U02",
-        technique="Kani/CBMC on seglog parse_record extracted verbatim over every bit pattern of a 20-byte buffer (CRC modelled as a GF(2)-linear rolling hash) + the writer's append-layout inductive step + Verus proofs of Writer::open's recovery scan and of the read-ahead cache (units/U03)",
+        technique="Kani/CBMC on seglog parse_record extracted verbatim over every bit pattern of a 20-byte buffer (CRC modelled as a GF(2)-linear rolling hash) + one checksum-gate harness per decoding path of Reader::read_record (optimistic / fallback / allocated buffer, sequential read-ahead; units/U02r) + the writer's append-layout inductive step + Verus proofs of Writer::open's recovery scan and of the read-ahead cache (units/U03); thorough: read_record(Random) == parse_record on arbitrary 40-byte images",
         text="Bounded stand-in: parse_record never panics on any bytes; an Ok result satisfies the CRC gate over exactly the bytes returned and has the documented layout; every Err kind occurs only for its documented reason; a record whose checksum matches is never rejected; Writer::append lays out exactly length, checksum, header, data — so parse_record returns what append wrote (round trip by composition).",
-        note="PARTIAL and bounded (buffer 20 bytes, H = 1, scaled constants). ASSUMED: CRC-32 detects single-bit flips and bursts <= 32 bits in a message of unchanged length (the model hash has that property; a flip in the length field is detected with probability 1-2^-32 only); zstd round trip. Writer::open's recovery scan (`a reopened writer resumes right after the last intact record`) and the read-ahead cache are proved in Verus (units/U03, counted in obligations). NOT decided here: the record decoding of Reader::read_record random/sequential paths and Iter (the single-call relational harnesses against parse_record and the history harnesses exceeded CBMC's memory): they are behind an assumed contract in U03 and covered only by the real-file replay driver U02 as counterexample search."),
+        note="PARTIAL and bounded (buffer 20 bytes, H = 1, scaled constants). ASSUMED: CRC-32 detects single-bit flips and bursts <= 32 bits in a message of unchanged length (the model hash has that property; a flip in the length field is detected with probability 1-2^-32 only); zstd round trip. Writer::open's recovery scan (`a reopened writer resumes right after the last intact record`) and the read-ahead cache are proved in Verus (units/U03, counted in obligations). Reader paths: each decoding path returns Ok IFF the stored checksum matches the length field, header and data it returns, and returns the bytes at that offset (bounded: one record, concrete payload length per path, all other bytes symbolic); the sequential path's relational harness against parse_record still exhausts CBMC's memory. The environment replaces std::io::Error by a plain enum."),
     "C18": dict(
         category="other", design_ref="§5 U02",
-        technique="Verus unbounded proof of the provenance contract on ReadAheadBuf::{read,fill,overlaps,invalidate} (real 64 KiB / 4 KiB constants) + Kani/CBMC inductive-step harnesses on Writer::sync (flush, then sync_data, then publish) and Writer::set_len over arbitrary writer states; replay on real files",
+        technique="Verus unbounded proof of the provenance contract on ReadAheadBuf::{read,fill,overlaps,invalidate} (real 64 KiB / 4 KiB constants) + Kani/CBMC inductive-step harnesses on Writer::sync (flush, then sync_data, then publish) and Writer::set_len over arbitrary writer states; replay on real files + Kani harness: a long-lived Reader after the shared flushed offset was lowered (units/U02r)",
         text="READER half (Verus, unbounded): inv = the read-ahead cache holds only bytes below the flushed offset loaded when it was filled, equal to the file; read() serves exactly file.disk()[offset..offset+length] for every request below the flushed offset (hit or refill) and re-establishes inv; fill() covers the request window; overlaps() is exact interval overlap. WRITER half (Kani, bounded): the flushed offset is only ever advanced to the write offset after the buffered bytes reached the file and sync_data was called; truncation lowers it and keeps bytes below intact; appends publish nothing. Hence no reader can be handed an offset whose bytes are not in the file.",
         note="category `other` because the writer half is a bounded stand-in; the reader-cache obligations are discharged by Verus (counted in obligations/discharged). ASSUMED: FileExt::read_at returns bytes of the file (per-call snapshot); bytes below the flushed offset do not change between calls (writer contract) — so Reader::read_record_sequential / Iter see exactly the flushed bytes through the cache; their record decoding is C17. After an I/O error inside fill the invariant is not claimed (fill does not reset valid_len: candidate, DESIGN A.5). Known finding: a long-lived reader's cache is not invalidated when already-flushed records are truncated (set_len below the flushed offset) — not reachable from sierradb, which only truncates unflushed tails."),
     "C19": dict(
@@ -29,7 +29,7 @@ CLAIMS = {
         note="`stored size` is read as the UNCOMPRESSED record size (the size the database budgets for): a compressible transaction larger than a segment is rejected by design. Contract (a) found the defect fixed in 86f6510 (incompressible data grew under compression past the estimate). ASSUMED: the record format sizes (bincode encoding of RawEvent / RawCommit: external crate) restated in the U19 harness; the real zstd is replaced by a model codec that shrinks runs and expands everything else. Bounded: <= 2 events per transaction (lengths symbolic), 7-byte data in (a)."),
     "C02": dict(
         category="other", design_ref="§4 C25 (U04), §5 U12",
-        technique="Verus proof + complete Kani harnesses on validate_partition_sequence / ExpectedVersion algebra (U04) and bounded Kani harnesses on WriterSet::validate_event_versions extracted verbatim (model HashMap, index lookup behind a contract) against the one spec `accepts`",
+        technique="Verus proof + complete Kani harnesses on validate_partition_sequence / ExpectedVersion algebra (U04) and bounded Kani harnesses on WriterSet::validate_event_versions extracted verbatim (model HashMap, index lookup behind a contract) against the one spec `accepts`; the index lookup that feeds it (read_stream_latest_version) is itself under contract in units/U20",
         text="Partition-sequence half (proof, all u64): the store accepts exactly when `accepts(expected, current)`, the rejection reports the actual state. Stream half (bounded: transactions of <= 2 events over <= 2 streams, <= 1 pending append, versions/expectations full-range, arbitrary indexed state): validate_event_versions returns Ok iff every event's expectation holds against the stream state EXTENDED by the earlier events of the same transaction and every touched stream carries the transaction's partition key; the returned versions are the versions each event saw; rejections name the right reason.",
         note="category `other`: the stream half is a bounded stand-in. NOT decided: WriterSet::handle_write (assignment of sequences/versions, pending-index bookkeeping), `a rejected append changes nothing observable` at Worker::handle_append_events level (set_len path), next_partition_sequence, agreement of pending / open-index / closed-index lookups across reopen (read_stream_latest_version is a callee behind an assumed contract), the latest-version / latest-sequence queries."),
     "C03": dict(
@@ -53,10 +53,10 @@ CLAIMS = {
         text="Bounded stand-in (<= 6 buckets, ids full-range u16, any thread count): every stored bucket is routed to exactly one existing writer thread, the same one Worker::new assigns it to, so appends to one bucket are executed by one thread one at a time; the per-request accept/reject decision is the sequential contract of C25/C02 (validate_partition_sequence, expected-version algebra).",
         note="PARTIAL: the serialisation itself is Rust ownership (&mut WriterSet owned by one thread; trusted: rustc) plus the sequential run loop; channel and scheduler behaviour are not modelled. WriterSet::validate_event_versions / handle_write are not under contract in this build."),
     "C05": dict(
-        category="proof", design_ref="§5 U03 (open)",
-        technique="Verus unbounded proof on seglog Writer::open (the recovery scan) extracted verbatim, with the Reader behind its contract; replay on real files",
-        text="For EVERY file content (every truncation length, every corruption the reader's CRC gate rejects, a torn tail, a truncation marker) a reopened writer resumes exactly at the end of the maximal run of intact records from the start offset; the flushed offset and the file cursor are at that position and nothing is buffered; reopening fails only on an I/O error, never on corruption. This is the function-level half of `recovers to a consistent prefix and continues without gap or reuse` for the segment log.",
-        note="PARTIAL: only the seglog recovery scan. The Reader is assumed to satisfy its contract (read_record returns the intact record at an offset or the documented stop kind; parse_record's gate is checked under C17). NOT decided: Open*Index::hydrate (indexes events whose commit record is missing: candidate, DESIGN §10), Worker::new, DatabaseBuilder::open, rollover index files (C06), partition-sequence / stream-version continuation after reopen at database level."),
+        category="other", design_ref="§5 U03 (open)",
+        technique="Verus unbounded proof on seglog Writer::open (the recovery scan) extracted verbatim, with the Reader behind its contract; replay on real files + Kani/CBMC bounded harnesses on WriterSet::{next_partition_sequence, read_partition_latest_sequence, read_stream_latest_version} extracted verbatim (units/U20)",
+        text="For EVERY file content (every truncation length, every corruption the reader's CRC gate rejects, a torn tail, a truncation marker) a reopened writer resumes exactly at the end of the maximal run of intact records from the start offset; the flushed offset and the file cursor are at that position and nothing is buffered; reopening fails only on an I/O error, never on corruption. This is the function-level half of `recovers to a consistent prefix and continues without gap or reuse` for the segment log. Writer-thread half (Kani, bounded: <= 3 sealed segments): after a (re)open the next append to a partition continues at the cached sequence, else one past the MAXIMUM over the live index and ALL sealed segments, else 0; a stream's latest version / partition key come from its newest holder - no gap, no reuse.",
+        note="PARTIAL: the seglog recovery scan (proved) and the sequence / version continuity lookups of the writer thread (bounded, index files as lookup tables under the assumed monotonicity invariant). The Reader is assumed to satisfy its contract (read_record returns the intact record at an offset or the documented stop kind; parse_record's gate is checked under C17). NOT decided: Open*Index::hydrate (indexes events whose commit record is missing: candidate, DESIGN §10), Worker::new, DatabaseBuilder::open, rollover index files (C06), partition-sequence / stream-version continuation after reopen at database level."),
     "C07": dict(
         category="other", design_ref="§7 U17",
         technique="Kani/CBMC on SLICES (R5/R4) of ClusterActor::handle_partition_read_locally and handle_stream_read_locally lifted verbatim from the actor methods, against a model database iterator and a recording reply sink; AtomicWatermark::can_read complete harness (U09)",
@@ -79,9 +79,9 @@ CLAIMS = {
         note="Bounded to the listed configurations (a symbolic node count / index does not come back from CBMC: 64-bit modulo). Explicit bucket.ids / partition.ids overrides are out of scope (they bypass the computation). Known finding KF-C13-contiguous-vs-modulo: contiguous ranges vs. bucket % N disagree whenever rf < N and B > N."),
     "C14": dict(
         category="proof", design_ref="§4 C13/C14, U07",
-        technique="Verus unbounded proof on calculate_partition_replicas (exact: known members of replica_nodes(b,N,rf) in offset order; distinctness/length lemmas over the spec) and on the bucket-selection loops of calculate_assigned_partitions, both extracted verbatim",
+        technique="Verus unbounded proof on calculate_partition_replicas (exact: known members of replica_nodes(b,N,rf) in offset order; distinctness/length lemmas over the spec) and on the bucket-selection loops of calculate_assigned_partitions, both extracted verbatim + Kani/CBMC bounded harness on get_available_replicas (model map / bounded-sequence ArrayVec): exactly the active replicas ordered by (alive_since, replica key), whatever the node-local heartbeat times (units/U07b)",
         text="For every cluster size (incl. N >= 256), bucket count, partition id and rf <= 12: the replica list is exactly the known nodes among (b%N + k)%N, k < min(rf,N), in offset order; with all nodes known it has exactly min(rf,N) pairwise distinct entries (lemma: k -> (a+k)%N injective); a node's bucket set is exactly the buckets whose replica set contains it, so `owns iff in replica set` holds by construction. Determinism across nodes follows from the result being a function of (arguments, known-node map).",
-        note="Assumed: vstd HashMap/HashSet specs; ArrayVec shim; rf <= 12 (ArrayVec capacity; not enforced by config validation); the filter/collect tail of calculate_assigned_partitions (std, no Verus spec: the proved fact is the bucket set before the tail). NOT decided: recalculate_partition_assignments over real HashMap iteration order, get_available_replicas' sort (closure), libp2p event delivery. Kani is infeasible here (64-bit symbolic modulo; measured > 20 min)."),
+        note="Assumed: vstd HashMap/HashSet specs; ArrayVec shim; rf <= 12 (ArrayVec capacity; not enforced by config validation); the filter/collect tail of calculate_assigned_partitions (std, no Verus spec: the proved fact is the bucket set before the tail). get_available_replicas is bounded (<= 2 replicas quick, <= 3 thorough; std sort_by trusted to be a stable sort). NOT decided: recalculate_partition_assignments over real HashMap iteration order, libp2p event delivery. Kani is infeasible here (64-bit symbolic modulo; measured > 20 min)."),
     "C22": dict(
         category="other", design_ref="§7 U18",
         technique="Kani/CBMC on a SLICE (R5/R4) of the EMAPPEND request handler (per-event stream-version reconstruction) lifted verbatim, against array models of the map and lists",
